@@ -140,6 +140,9 @@ func inputGen() *rapid.Generator[any] {
 		map[string]any{"a": map[string]any{"a": map[string]any{"a": 0}}}, map[string]any{"a": []any{}, "b": map[string]any{}}, map[string]any{"a": nil, "b": false, "c": 0},
 		map[string]any{"a": "b", "b": "c", "c": "a"}, []any{map[string]any{"a": 1, "b": 2}, map[string]any{"a": 3, "b": 4}}, map[string]any{"a": []any{[]any{0, 1}, []any{2}}},
 		[]any{3, 1, 2}, map[string]any{"a": 2, "b": []any{1, 2}}, 1.5, "1", []any{[]any{}}, []any{map[string]any{}},
+		// fields / elements that name keys of their siblings (computed indices)
+		map[string]any{"a": []any{10, 20, 30}, "b": 1, "c": 2}, map[string]any{"a": map[string]any{"x": 1, "y": 2, "ax": 3}, "b": "x", "c": "y"}, []any{[]any{1, 2, 3}, 1, 2},
+		[]any{map[string]any{"a": 1, "b": 2}, "a", "b"}, map[string]any{"a": map[string]any{"b": map[string]any{"c": 5}}, "b": "b", "c": "c"},
 	}
 	return rapid.OneOf(
 		rapid.SampledFrom(fixed),
